@@ -19,6 +19,7 @@ import CbiVerif.Drv.Order
 import CbiVerif.Drv.Fortran
 import CbiVerif.Drv.C03
 import CbiVerif.Drv.Include
+import CbiVerif.Drv.GitIgnore
 /-! Native JSON-lines driver: one request object per line, one reply per line.
 Each area registers its ops in `CbiVerif/Drv/<Area>.lean`. -/
 open Lean
@@ -43,7 +44,8 @@ def handlerTable : List (String × (Json → Json)) :=
   CbiVerif.Drv.Order.handlers ++
   CbiVerif.Drv.Fortran.handlers ++
   CbiVerif.Drv.C03.handlers ++
-  CbiVerif.Drv.Include.handlers
+  CbiVerif.Drv.Include.handlers ++
+  CbiVerif.Drv.GitIgnore.handlers
 
 def handle (j : Json) : Json :=
   match j.getObjValAs? String "op" with
